@@ -3,8 +3,31 @@ From Coq Require Import List NArith ZArith Bool.
 From Baize Require Import Lib.Wire Lib.Order C02.Model Resp.Model Resp.IO C05.Model.
 Import ListNotations.
 
+Definition phrase_of (phrase : sx) (e : wevent) : option (list N) :=
+  match e with
+  | WStart code _ =>
+      fold_right (fun x acc => match x with
+                               | Lst [Num c; Str p] => if Nat.eqb (Z.to_nat c) code then Some p else acc
+                               | _ => acc end) None (sx_l phrase)
+  | _ => None
+  end.
+
 Definition run_case (c : list sx) : list sx :=
   match c with
+  | [rc; phrase; Str fault] =>
+      (* the file vanishes between stat and open *)
+      match rd_recipe rc with
+      | Some r =>
+          if opens_file r then
+            [Lst (map show_event (asgi_vanished r)); tag (lit "exc-FileNotFoundError");
+             Lst (map (fun e => show_wevent (phrase_of phrase e) e) (wsgi_vanished r)); tag (lit "exc-FileNotFoundError")]
+          else
+            let '(aevs, ao) := asgi_run r None None in
+            let '(wevs, wo) := wsgi_run r None in
+            [Lst (map show_event aevs); show_outcome ao;
+             Lst (map (fun e => show_wevent (phrase_of phrase e) e) wevs); show_outcome wo]
+      | None => [tag (lit "badrecipe")]
+      end
   | [rc; phrase; closed_after; send_fails_at; wsgi_close_after] =>
       match rd_recipe rc with
       | Some r =>
